@@ -26,10 +26,15 @@ def run(ctx):
     if rc != 0:
         ctx.gate_breaks.append('harness c17 failed: ' + out[-300:])
         return
-    ctx.drivers([('tok1', d + '/tok1.cases', d + '/tok1.model', [d, 'fixed']), ('ranges', d + '/ranges.cases', d + '/ranges.model', [])])
+    ctx.drivers([('tok1', d + '/tok1.cases', d + '/tok1.model', [d, 'fixed']), ('ranges', d + '/ranges.cases', d + '/ranges.model', []),
+                 ('join1', d + '/join.cases', d + '/join.model', [])])
     ctx.compare_stream('v1-tokenizer-model', d + '/tok1.cases', d + '/tok1.impl', d + '/tok1.model', concrete=False)
     ctx.compare_stream('v1-ranges-model', d + '/ranges.cases', d + '/ranges.impl', d + '/ranges.model',
                        nontrivial=lambda c, i: i not in ('', 'PANIC'), concrete=False)
+    # the hypotheses the C17(b) theorems start from (Join1Proof.candidates_from_nodes): the windows New hashes are the
+    # model's, every range handed to the pipeline pairs a source window with a target node of equal checksum, sorted
+    ctx.compare_stream('v1-join-hypotheses', d + '/join.cases', d + '/join.impl', d + '/join.model',
+                       nontrivial=lambda c, i: ',' in c, concrete=False)
     ctx.oracle_stream('token-offsets', d + '/tok1.verdicts', d + '/tok1.cases')
     ctx.oracle_stream('candidate-ranges', d + '/ranges.verdicts', d + '/ranges.cases')
     ctx.oracle_stream('candidate-ranges-storm', d + '/storm.verdicts', d + '/storm.cases')
